@@ -296,6 +296,37 @@ def classify(text, q, vals, default):
     return default
 
 
+def twin_program(rng):
+    """propositional skeleton in which several clause bodies mention the same atoms in the same order with different signs"""
+    from vlib.gen import A
+    nf = rng.randint(2, 4)
+    prog = [("ad", [("p%d" % (i + 1), A("f%d" % i))], []) for i in range(nf)]
+    atoms = [A("f%d" % i) for i in range(nf)]
+    k = nf
+    if rng.random() < 0.4:
+        prog.append(("ad", [("p%d" % (k + 1), A("h0")), ("p%d" % (k + 2), A("h1"))], []))
+        atoms += [A("h0"), A("h1")]
+        k += 2
+    heads = []
+    for j in range(rng.randint(1, 2)):
+        body_atoms = rng.sample(atoms, rng.randint(1, min(3, len(atoms))))
+        for t in range(rng.randint(2, 3)):
+            signs = [rng.random() < 0.5 for _ in body_atoms]
+            h = A("d%d_%d" % (j, t))
+            if rng.random() < 0.3:
+                k += 1
+                prog.append(("ad", [("p%d" % k, h)], [(a, sg) for a, sg in zip(body_atoms, signs)]))
+            else:
+                prog.append(("rule", h, [(a, sg) for a, sg in zip(body_atoms, signs)]))
+            heads.append(h)
+    if rng.random() < 0.5:
+        prog.append(("rule", A("top"), [(rng.choice(heads), False), (rng.choice(heads), rng.random() < 0.5)]))
+        heads.append(A("top"))
+    for h in heads:
+        prog.append(("query", h))
+    return prog
+
+
 def main(tier, seed):
     run = Run("C31", tier, seed, "translation_validation",
               "each acyclic evidence-free skeleton is exported by the real formula_to_bn with symbolic CPT entries; an "
@@ -313,6 +344,8 @@ def main(tier, seed):
     n = 60 if tier == "quick" else 1500
     for i in range(n):
         items.append(("gen/%d/%d" % (seed, i), gen.generate(seed, 31000 + i, max_choices=6, recursion=False, evidence=False, graphs=False)))
+    for i in range(n // 2):
+        items.append(("twin/%d/%d" % (seed, i), twin_program(random.Random("c31t/%s/%s" % (seed, i)))))
     run.bounds = {"skeletons": len(items), "max_choices": 6}
     for st in pmap(work, items, item_timeout=120):
         run.merge(st)
